@@ -20,14 +20,18 @@ from . import common
 from . import modules_util as mu
 from .common import log
 
-MC = {"quick": ["MC_Modules_q31.cfg", "MC_Modules_q22.cfg"],
-      "thorough": ["MC_Modules_t32.cfg", "MC_Modules_q31.cfg", "MC_Modules_q22.cfg"]}
+# q41: four modules with one declaration each, at most one of them private, every import relation without self-imports
+# (chains of three imports, diamonds, every file order), spliced in the order of the code
+MC = {"quick": ["MC_Modules_q31.cfg", "MC_Modules_q22.cfg", "MC_Modules_q41.cfg"],
+      "thorough": ["MC_Modules_t32.cfg", "MC_Modules_q31.cfg", "MC_Modules_q22.cfg", "MC_Modules_q41.cfg"]}
 SEQ_GUARD = ("MC_Modules_seq.cfg", "SequencesConfluent")
 RECORD = {"quick": {"mods": (1500, 6), "splits": (90, 120, 6)},
           "thorough": {"mods": (20000, 10), "splits": (1200, 1500, 12)}}
 
-RULE = ("TLC enumerates every program of <= 3 modules with <= 1 declaration each and <= 2 modules with <= 2 (thorough: "
-        "<= 3 x <= 2) x pub/private x every import relation incl. self- and mutual imports x every order in which the "
+RULE = ("TLC enumerates every program of <= 3 modules with <= 1 declaration each, <= 2 modules with <= 2 (import lines at every "
+        "position, also written twice) and 4 modules with one declaration each (thorough: <= 3 x <= 2); declarations are functions, "
+        "function heads, constants, structures / words, every second one extern; x pub/private x every import relation incl. self- "
+        "and mutual imports x every order in which the "
         "expander may splice the import pairs, and checks that each ends with exactly Visible(m) = Own(m) + public "
         "declarations of directly imported modules, imported items being non-public signatures. Every input is run through "
         "the real expander and scoper with a probe per (module, name): invisible names must be rejected with E401/E402/E405. "
@@ -47,7 +51,7 @@ ASSUMPTIONS = [
 
 def canon(case):
     key = "flags=%s imports=%s" % (
-        "|".join("".join("P" if f else "p" for f in fl) for fl in case["flags"]),
+        "|".join("".join("P" if f else "p" for f in fl) if fl else "" for fl in case["flags"]),
         "|".join(",".join(str(j) for j in im) for im in case["imports"]))
     # where the import lines stand among the declarations (only named when it is not "first", so that the keys of
     # the sets with leading imports stay what they were)
@@ -74,7 +78,7 @@ def compare(case, obs):
             continue
         for d in m["decls"]:
             want = seen[d["n"]]
-            if (d["pub"], d["body"], d["k"]) != (want["pub"], want["body"], want["k"]):
+            if (d["pub"], d["body"], d["k"], d.get("ext", False)) != (want["pub"], want["body"], want["k"], want.get("ext", False)):
                 out.append(("imported-item-flags", "module %d sees %s as %s, the rule says %s" % (i + 1, d["n"], d, want)))
         for p in m["probes"]:
             visible = p["n"] in case["visible"][i]
@@ -90,17 +94,24 @@ def compare(case, obs):
     return out
 
 
+def part_on(name):
+    """C12_PARTS=replay,mods,splits restricts the check to some parts while developing (default: all)."""
+    only = os.environ.get("C12_PARTS")
+    return not only or name in only.split(",")
+
+
 def run(rep, tier, seed, selftest):
     selftest = selftest or tier == "thorough"
     common.build_harness()
     os.makedirs(common.WORK, exist_ok=True)
+    mc_cfgs = MC[tier] if part_on("replay") else ["MC_Modules_q22.cfg"]
     # ---- 1. model checking ---------------------------------------------------------------------
-    res = mu.tlc_many("C12", "MC_Modules", MC[tier], workers=6 if tier == "quick" else 8,
+    res = mu.tlc_many("C12", "MC_Modules", mc_cfgs, workers=6 if tier == "quick" else 8,
                       timeout=900 if tier == "quick" else 3400, heap="8g", parallel=2 if tier == "quick" else 1)
     states = transitions = 0
     model_ok = True
     groups = {}
-    for cfg in MC[tier]:
+    for cfg in mc_cfgs:
         r = res[cfg]
         states += r.distinct
         transitions += r.generated
@@ -159,7 +170,7 @@ def run(rep, tier, seed, selftest):
         c["visible"][m].append(extra)
         selftests["invisible_name_added_detected"] = bool(compare(c, observations[j]))
     # ---- 3. trace validation of random module sets ---------------------------------------------
-    count, chunks = RECORD[tier]["mods"]
+    count, chunks = RECORD[tier]["mods"] if part_on("mods") else (8, 1)
     prefix = os.path.join(common.WORK, "C12-mtrace")
     mu.pvh(["record-mods", count, seed, prefix, chunks])
     files = [f for f in ("%s.%d.ndjson" % (prefix, c) for c in range(chunks)) if os.path.exists(f)]
@@ -191,7 +202,7 @@ def run(rep, tier, seed, selftest):
     if selftest and files:
         selftests.update(trace_selftest(files[0]))
     # ---- 4. split programs in every file order; histories --------------------------------------
-    nsplit, nhist, chunks = RECORD[tier]["splits"]
+    nsplit, nhist, chunks = RECORD[tier]["splits"] if part_on("splits") else (3, 8, 1)
     prefix = os.path.join(common.WORK, "C12-strace")
     mu.pvh(["record-splits", nsplit, nhist, seed, prefix, chunks], timeout=3300)
     sfiles = [f for f in ("%s.%d.ndjson" % (prefix, c) for c in range(chunks)) if os.path.exists(f)]
